@@ -561,6 +561,16 @@ impl Quantity {
     /// Pretty prints with the given precision. Disables e (scientific) notation.
     /// Prints without fractional part if precision is 0.
     pub fn pretty_print_with_precision(&self, precision: i8) -> crate::markup::Markup {
+        if precision <= 0 {
+            // pretty_dtoa can not round a value in [0.5, 1) to zero decimal digits (it removes all
+            // digits and then indexes the last one): round the value ourselves.
+            let rounded = Quantity::new_f64(self.value.to_f64().round(), self.unit.clone());
+            let dtoa_config = FmtFloatConfig::default()
+                .max_decimal_digits(0)
+                .add_point_zero(false)
+                .force_no_e_notation();
+            return rounded.pretty_print_internal(&FormatOptions::default(), Some(dtoa_config));
+        }
         let dtoa_config = FmtFloatConfig::default()
             .min_decimal_digits(precision)
             .max_decimal_digits(precision)
